@@ -60,6 +60,9 @@ type World struct {
 	// Hold: packets for which Hold returns true are not deliverable (crashed receiver, ...).
 	Hold func(p *Packet) bool
 
+	// Optional returns scenario events that are never the default (Byzantine actions, faults):
+	// they are offered as alternatives after the deliveries.
+	Optional func() []Event
 	// Extra returns the pending scenario events (API call starts, cancellations, injections).
 	Extra func() []Event
 
